@@ -39,4 +39,20 @@ PROPS["C17"] = dict(
     level_note="Trusted: Lean kernel, factgen (syntactic shapes), the scripted sink. Timers of the reRun handler are not exercised by the quick tier.",
 )
 
+PROPS["C11"] = dict(
+    modules=["Hub.Props.C11"],
+    gens=["c11"],
+    rule="random borrow/return sequences (5 job ids, pools 0..2 fullsync / 0..3 incremental) against the real raffle, state compared after "
+         "every request; non-trivial = at least two grants and one refusal; distinct = distinct sequences",
+    trusted=["goja, cron/jobrunner and goroutine scheduling are outside the model", "panic recovery of cron/manual runs is jobrunner's"],
+    assumptions=["a ticket is returned exactly once, by the run that holds it (defer in job.Run, checked as a regenerated fact)"],
+    level_text="Proof: the raffle invariant (tickets + running = pool per kind, at most one entry per job id) is proved for every sequence of "
+               "requests (raffle_inv, pools_never_exceeded, no_overlap); the control-flow skeleton of job.Run returns the ticket on every path "
+               "including panics and stores a result unless it panicked (run_outcome); wrappers forward to the wrapped component and "
+               "Scheduler.verify validates every trigger (wrappers_forward, verify_total with facts regenerated from the source). "
+               "The real raffle is compared with the model after every request of generated sequences.",
+    level_note="Trusted: Lean kernel, factgen shapes, the harness. Behaviour of goja/cron and goroutine panics is residue; the job cross product "
+               "is executed by the thorough tier in child processes.",
+)
+
 NOT_YET = {}
